@@ -38,9 +38,9 @@ var zzC14Catalogue = []zzAttrSpec{
 // written from the statement, for elements reached through four different
 // evaluation paths (plain, v-if branch, v-else branch, v-for root).
 func VerifC14_Attrs() {
-	nAttrs := zzBound("attrs", 3, 4)
+	nAttrs := zzBound("attrs", 2, 3)
 	construct := zzChoice("construct", 4)
-	sv := zzStringIn("sv", 2, "ab")
+	sv := []string{"", "ab"}[zzChoice("sv", 2)]
 	tv := zzBool("tv")
 	bkind := zzChoice("bkind", 4)
 	var bv any
